@@ -845,4 +845,156 @@ example : Valid [.upd "STATUS" "1", .upd "ALIVE" "2", .save, .upd "STATUS" "3"] 
   intro a ha b hb hab
   exact hab
 
+/-! ### the delayed save: nothing stays unsaved once the updater is quiet
+
+`pending` = the delayed-save timer is armed.  Every change of a topic that is not on the no-save list
+arms it (whatever happened to other topics in the same debounce window — e.g. another topic changing
+and returning to its saved value), and only a save disarms it.  So whenever no save is pending, viper's
+settings (= the file the last save wrote) already hold the latest value of EVERY persistent topic. -/
+
+/-- viper agrees with the cache on every persistent key, unless a save is pending -/
+def Quiet (low : String → String) (c : Cache) : Prop :=
+  c.pending = true ∨ ∀ k, k ∈ c.keys → noSave.contains (low k) = false → k ∉ saveAdds →
+    c.vip.lookup (low k) = some (strOf c.strs k)
+
+def evTagIn (T : List Tag) : Ev → Prop
+  | .upd t _ => t ∈ T
+  | .save => True
+
+theorem step_quiet (low : String → String) (T : List Tag) (hinj : LowerInj low T)
+    (hadds : ∀ a, a ∈ saveAdds → a ∈ T) (c : Cache) (e : Ev) (hk : ∀ k, k ∈ c.keys → k ∈ T)
+    (he : evTagIn T e) (hq : Quiet low c) :
+    Quiet low (step low c e).1 ∧ ∀ k, k ∈ (step low c e).1.keys → k ∈ T := by
+  cases e with
+  | save =>
+    have hk' : ∀ k, k ∈ saveAdds.foldl insertKey c.keys → k ∈ T := by
+      intro k hkm
+      rcases (mem_foldl_insertKey saveAdds c.keys k).mp hkm with h1 | h1
+      · exact hadds k h1
+      · exact hk k h1
+    refine ⟨Or.inr ?_, ?_⟩
+    · intro k hkm hns hadd
+      simp only [step, saveStep] at hkm ⊢
+      rw [foldl_vipSet_hit low c k _ c.vip hkm
+        (fun k' hk'm heq => hinj k' (hk' k' hk'm) k (hk' k hkm) heq) hns]
+      simp [savedVal, hadd]
+    · intro k hkm
+      simp only [step, saveStep] at hkm
+      exact hk' k hkm
+  | upd t m =>
+    have ht : t ∈ T := he
+    simp only [step]
+    split
+    · exact ⟨hq, hk⟩
+    · split
+      · exact ⟨hq, hk⟩
+      · split
+        · -- a changed value is stored
+          refine ⟨?_, ?_⟩
+          · by_cases hp : c.pending = true
+            · left; simp [hp]
+            · by_cases hns : noSave.contains (low t) = true
+              · rcases hq with hq | hq
+                · exact absurd hq hp
+                · right
+                  intro k hkm hnsk hadd
+                  have hkt : k ≠ t := by
+                    rintro rfl; rw [hns] at hnsk; cases hnsk
+                  have hkc : k ∈ c.keys := by
+                    rcases (mem_insertKey c.keys t k).mp hkm with h1 | h1
+                    · exact absurd h1 hkt
+                    · exact h1
+                  have := hq k hkc hnsk hadd
+                  simp only [strOf, lookup_cons_eq, if_neg hkt] at this ⊢
+                  exact this
+              · left
+                have hns' : low t ∉ noSave := by simpa using hns
+                simp [hns']
+          · intro k hkm
+            rcases (mem_insertKey c.keys t k).mp hkm with h1 | h1
+            · rw [h1]; exact ht
+            · exact hk k h1
+        · exact ⟨hq, hk⟩
+
+def evsIn (T : List Tag) : List Ev → Prop
+  | [] => True
+  | e :: r => evTagIn T e ∧ evsIn T r
+
+theorem evsIn_tagsOf (T : List Tag) (h : List Ev) (hT : ∀ t, t ∈ tagsOf h → t ∈ T) : evsIn T h := by
+  induction h with
+  | nil => trivial
+  | cons e r ih =>
+    cases e with
+    | save => exact ⟨trivial, ih (by simpa [tagsOf] using hT)⟩
+    | upd t m =>
+      exact ⟨hT t (by simp [tagsOf]), ih (fun x hx => hT x (by simp [tagsOf, hx]))⟩
+
+theorem run_quiet (low : String → String) (T : List Tag) (hinj : LowerInj low T)
+    (hadds : ∀ a, a ∈ saveAdds → a ∈ T) (h : List Ev) : ∀ (c : Cache), (∀ k, k ∈ c.keys → k ∈ T) →
+    evsIn T h → Quiet low c → Quiet low (run low c h).1 := by
+  induction h with
+  | nil => intro c _ _ hq; simpa [run] using hq
+  | cons e r ih =>
+    intro c hk he hq
+    obtain ⟨h1, h2⟩ := step_quiet low T hinj hadds c e hk he.1 hq
+    simp only [run]
+    exact ih _ h2 he.2 h1
+
+theorem savedView_lookup (low : String → String) (vip : List (String × Msg)) (x : String)
+    (hnot : x ∉ saveAdds.map low) : (savedView low vip).lookup x = vip.lookup x := by
+  unfold savedView
+  rw [lookup_filter_key (fun k => !(saveAdds.map low).contains k), lookup_dedupKeys]
+  have hc : (saveAdds.map low).contains x = false := by simpa using hnot
+  simp only [hc, Bool.not_false, if_true, List.not_mem_nil, if_false]
+
+/-- **Once no save is pending, the saved settings hold the latest value of every persistent topic** —
+for every history of updates (several topics changing inside one debounce window, changes followed by a
+return to the value already saved, repeats, no-save topics) and saves at any points. -/
+theorem C16_saved_when_quiet (low : String → String) (cfg : List (String × Msg)) (h : List Ev)
+    (hv : Valid h) (hinj : LowerInj low (tagsOf h ++ saveAdds))
+    (hp : (run low (Cache.init cfg) h).1.pending = false) :
+    chkSaved low h (savedView low (run low (Cache.init cfg) h).1.vip) = true := by
+  have hi := (run_inv low h (Cache.init cfg) [] (CInv_init cfg) hv).2
+  have hstrs := run_strs low h (Cache.init cfg) hv
+  have hq := run_quiet low (tagsOf h ++ saveAdds) hinj (fun a ha => List.mem_append_right _ ha) h
+    (Cache.init cfg) (by simp [Cache.init])
+    (evsIn_tagsOf _ h (fun t ht => List.mem_append_left _ ht)) (Or.inl rfl)
+  generalize (run low (Cache.init cfg) h).1 = c at *
+  generalize pushLive [] (run low (Cache.init cfg) h).2 = rl at *
+  rcases hq with hq | hq
+  · rw [hp] at hq; cases hq
+  unfold chkSaved
+  rw [List.all_eq_true]
+  intro t ht
+  by_cases hpers : persistent low t = true
+  · simp only [hpers, Bool.not_true, Bool.false_or, beq_iff_eq]
+    simp only [persistent, Bool.and_eq_true, bne_iff_ne, ne_eq, Bool.not_eq_true',
+      List.contains_eq_mem, decide_eq_false_iff_not] at hpers
+    obtain ⟨⟨⟨hsa, hnd⟩, hns⟩, hadd⟩ := hpers
+    obtain ⟨m, hm⟩ := lastUpd_of_mem h t ht
+    have hs : c.strs.lookup t = some m := by rw [hstrs t hnd hsa, hm]
+    obtain ⟨hk, _, _⟩ := hi.str_keys t m hs
+    have htl : t ∈ tagsOf h ++ saveAdds := List.mem_append_left _ ht
+    have hnot : low t ∉ saveAdds.map low := by
+      simp only [List.mem_map, not_exists, not_and]
+      intro a ha heq
+      have := hinj a (List.mem_append_right _ ha) t htl heq
+      subst this; exact hadd ha
+    rw [savedView_lookup low c.vip (low t) hnot, hq t hk (by simpa using hns) hadd, hm]
+    simp [strOf, hs]
+  · have hp' : persistent low t = false := by simpa using hpers
+    simp [hp']
+
+/-- The scenario of a save window in which one topic changes for good and another changes away and back
+to its saved value: the model still has a save pending (so the quiet state is only reached through a
+save that writes the first topic's new value), and after that save the file has both latest values. -/
+example :
+    (run id (Cache.init []) [.upd "MIX" "a", .upd "STATUS" "c", .save,
+      .upd "MIX" "b", .upd "STATUS" "d", .upd "STATUS" "c"]).1.pending = true ∧
+    (run id (Cache.init []) [.upd "MIX" "a", .upd "STATUS" "c", .save,
+      .upd "MIX" "b", .upd "STATUS" "d", .upd "STATUS" "c", .save]).1.pending = false ∧
+    savedView id (run id (Cache.init []) [.upd "MIX" "a", .upd "STATUS" "c", .save,
+      .upd "MIX" "b", .upd "STATUS" "d", .upd "STATUS" "c", .save]).1.vip
+      = [("MIX", "b"), ("STATUS", "c")] := by decide
+
 end DastardV.C16
